@@ -47,7 +47,11 @@ func litmusCases() []litmusCase {
 	viol := func(want bool) func(st *Stats) string {
 		return func(st *Stats) string {
 			if (len(st.Violations) > 0) != want {
-				return fmt.Sprintf("violations=%d want>0=%v (execs %d)", len(st.Violations), want, st.Executions)
+				msg := ""
+				if len(st.Violations) > 0 {
+					msg = st.Violations[0].Message
+				}
+				return fmt.Sprintf("violations=%d want>0=%v (execs %d) %s", len(st.Violations), want, st.Executions, msg)
 			}
 			return ""
 		}
@@ -330,8 +334,9 @@ func runLitmus(verbose bool) bool {
 			fmt.Println("litmus ok   race-positive:", strings.SplitN(st.Violations[0].Message, "\n", 2)[0])
 		}
 	}
-	// state cache: independent steps are not permuted, dependent ones still are
-	{
+	// state cache: independent steps are not permuted, dependent ones still are (explorer logic,
+	// identical in both builds: checked in the normal build only, it is the expensive part)
+	if !vrt.RaceBuild {
 		body := func() {
 			var a, b vatomic.Int32
 			done, wait := join(2)
